@@ -101,7 +101,10 @@ func (st *c03State) resolveAll(family, text, op string, vars map[string]interfac
 		c.R.Distinct++
 		var res map[string]interface{}
 		root := st.roots.roots[i]
-		if pi := core.Safe(func() { res = root.ResolveString(text, op, vars) }); pi != nil {
+		if pi := core.Safe(func() {
+			res = root.ResolveString(text, op, vars)
+			_ = ggql.WriteJSONValue(io.Discard, res, -1) // printing the response is part of answering a request
+		}); pi != nil {
 			st.panicked(family, "ResolveString/"+st.roots.names[i], pi, text)
 			continue
 		}
@@ -181,6 +184,27 @@ func (st *c03State) valueCase(family, text string) {
 		}
 	}); pi != nil {
 		st.panicked(family, "ParseValueString", pi, text)
+	}
+}
+
+// writeCase prints values built in Go (not parsed) around the string: alone, in a list, as a map value and as a map key.
+func (st *c03State) writeCase(family, str string) {
+	c := st.c
+	if !c.NextCase(family + fmt.Sprintf(" WriteJSONValue/WriteSDLValue of values built around %q", str)) {
+		return
+	}
+	c.Eval()
+	c.R.Distinct++
+	c.Nontrivial()
+	if pi := core.Safe(func() {
+		for _, v := range []interface{}{str, []interface{}{str, 1}, map[string]interface{}{"k": str}, map[string]interface{}{str: 1}, ggql.Symbol(str), ggql.Var(str)} {
+			for _, ind := range []int{-1, 0, 2} {
+				_ = ggql.WriteSDLValue(io.Discard, v, ind)
+				_ = ggql.WriteJSONValue(io.Discard, v, ind)
+			}
+		}
+	}); pi != nil {
+		st.panicked(family, "WriteJSONValue/WriteSDLValue", pi, fmt.Sprintf("%q", str))
 	}
 }
 
@@ -460,6 +484,45 @@ func runC03(c *core.Ctx) {
 		}
 		st.valueCase("bytes", bs)
 		st.valueCase("bytes", "[\""+bs+"\"]")
+	}
+	// ---- (iii-b) rune strings: every string of <= 2 runes over one representative of each class a printer or scanner may
+	// treat differently (controls, DEL, C1, zero width, line separator, replacement, non-characters, private use, assigned /
+	// unassigned / tag / private-use astral planes, the last code point), in every text position and through the value writers
+	runes := []rune{'a', '"', '\\', 0x00, 0x1f, 0x7f, 0x80, 0xA0, 0x200B, 0x2028, 0xD7FF, 0xE000, 0xFFFD, 0xFFFE, 0xFFFF, 0x10000, 0x1F600, 0x40000, 0xE0001, 0xF0000, 0x10FFFF}
+	var rstrs []string
+	for _, a := range runes {
+		rstrs = append(rstrs, string(a))
+		for _, b := range runes {
+			rstrs = append(rstrs, string([]rune{a, b}))
+		}
+	}
+	for _, rs := range rstrs {
+		if c.Expired() {
+			break
+		}
+		if !own() {
+			continue
+		}
+		st.writeCase("runes", rs)
+		lit := strings.NewReplacer("\\", "\\\\", "\"", "\\\"", "\x00", "\\u0000", "\x1f", "\\u001f").Replace(rs)
+		st.resolveAll("runes", "{ echo(s: \""+lit+"\") }", "", nil)
+		st.resolveAll("runes", "query($v: String){ echo(s: $v) }", "", map[string]interface{}{"v": rs})
+		st.loadSDLCase("runes", "\""+lit+"\" type Query { i(a: String = \""+lit+"\"): Int }")
+		st.valueCase("runes", "{k: \""+lit+"\", \""+lit+"\": 1}")
+	}
+	// ---- (iii-c) directive definition graphs: every digraph of directive uses on directive arguments over 3 directives (one
+	// argument each) and over 2 directives with two arguments each - loops, lassos (a tail into a loop), diamonds
+	for n, two := range map[int]bool{3: false, 2: true} {
+		bits := uint(n * n)
+		if two {
+			bits *= 2
+		}
+		for m := uint64(0); m < 1<<bits; m++ {
+			if !own() {
+				continue
+			}
+			st.loadSDLCase("directive-graph", dirGraphSDL(n, m, two))
+		}
 	}
 	// ---- (iv) reader faults at every Read call of every corpus document
 	for di, doc := range append(append([]string{}, exeCorpus[:6]...), sdlCorpus[:3]...) {
